@@ -13,6 +13,4 @@ abbrev chunkMaxpacket : Nat := 262144
 abbrev unpackers : Nat := 4
 /-- `eslDSQDATA_UMAX` -/
 abbrev umax : Nat := 4
-/-- does `dsqdata_loader_thread` compare the number of sequences it loaded with `dd->nseq` at end of data? -/
-abbrev loaderChecksNseq : Bool := false
 end EaselModel.Dsqdata.Consts
